@@ -17,8 +17,13 @@ package main
 import (
 	"bytes"
 	"crypto/sha256"
+	"encoding/json"
 	"fmt"
+	"io/ioutil"
+	"net"
 	"os"
+	"os/exec"
+	"path/filepath"
 	"sort"
 	"strings"
 	"sync/atomic"
@@ -957,6 +962,12 @@ func main() {
 	}
 	R := r.R
 	x.emit("cfg", "cfg", "ok")
+	if r.Mode == "realsync" {
+		for q := 0; q < r.Scale(1, 3); q++ {
+			realSync(r, q)
+		}
+		return
+	}
 	if r.Mode == "handoff" {
 		for q := 0; q < r.Scale(2, 8); q++ {
 			x.lines = x.lines[:0]
@@ -1356,4 +1367,138 @@ func replay(x *scen, lines []string) {
 		}
 	}
 	_ = os.Stderr
+}
+
+// ---------------------------------------------------------------- two real nodes
+
+type nodeReport struct {
+	StoreHeight int64 `json:"store_height"`
+	Blocks      []struct {
+		Height  int64  `json:"h"`
+		Hash    string `json:"hash"`
+		AppHash string `json:"app"`
+	} `json:"blocks"`
+	StateHeight int64    `json:"state_height"`
+	StateApp    string   `json:"state_app"`
+	StateVals   string   `json:"state_vals"`
+	AppHeight   int64    `json:"app_height"`
+	AppHash     string   `json:"app_hash"`
+	Nonces      []uint64 `json:"nonces"`
+	Err         string   `json:"err"`
+}
+
+func freePort() int {
+	l, err := net.Listen("tcp", "127.0.0.1:0")
+	if err != nil {
+		return 46656
+	}
+	defer l.Close()
+	return l.Addr().(*net.TCPAddr).Port
+}
+
+// realSync: two REAL nodes (go/cmd/c06node: core.NewNode with the real Angine wiring of verifier and
+// executer, the real reactors, TCP on loopback). A is the chain's validator and commits a planned
+// chain (contract creation and calls, a key-value transaction, two changes of its own voting power),
+// then goes on with empty blocks. B has the same genesis, is no validator, starts later with
+// fast_sync on and A as its seed. B must catch up with A, switch to consensus by itself and keep up;
+// its block store, validator set and application must then be A's.
+func realSync(r *vh.Run, q int) {
+	root, err := ioutil.TempDir("", "verif-c13-real-")
+	if err != nil {
+		panic(err)
+	}
+	defer os.RemoveAll(root)
+	self, _ := os.Executable()
+	node := filepath.Join(filepath.Dir(self), "c06node")
+	if p := os.Getenv("VERIF_C06NODE"); p != "" {
+		node = p
+	}
+	a, b := filepath.Join(root, "A"), filepath.Join(root, "B")
+	run := func(args ...string) *exec.Cmd {
+		c := exec.Command(node, args...)
+		c.Start()
+		return c
+	}
+	height := func(dir string) int64 {
+		bz, err := ioutil.ReadFile(filepath.Join(dir, "height.txt"))
+		if err != nil {
+			return -1
+		}
+		return nodeimpl.Atoi(strings.TrimSpace(string(bz)))
+	}
+	exec.Command(node, "-dir", a, "-init").Run()
+	exec.Command(node, "-dir", b, "-init").Run()
+	g, _ := ioutil.ReadFile(filepath.Join(a, "genesis.json"))
+	ioutil.WriteFile(filepath.Join(b, "genesis.json"), g, 0644)
+	R := r.R
+	plan := fmt.Sprintf("create 0 0; transfer 1 0 2\ncall 0 1 0 0; kv 2 0 alpha one\npower 2 1 %d\n-\ncall 1 1 0 0\npower 0 2 %d\n-\n", R.Range(2, 400), R.Range(1, 50))
+	planFile := filepath.Join(root, "plan.txt")
+	ioutil.WriteFile(planFile, []byte(plan), 0644)
+	pa, pb := freePort(), freePort()
+	ca := run("-dir", a, "-run", "-serve", "45", "-port", fmt.Sprint(pa), "-plan", planFile, "-commit", "350")
+	defer func() { ca.Process.Kill(); ca.Wait() }()
+	lead := int64(R.Range(9, 25))
+	for i := 0; i < 600 && height(a) < lead; i++ {
+		time.Sleep(50 * time.Millisecond)
+	}
+	cb := run("-dir", b, "-run", "-serve", "30", "-port", fmt.Sprint(pb), "-fastsync", "-seeds", fmt.Sprintf("127.0.0.1:%d", pa), "-commit", "350")
+	defer func() { cb.Process.Kill(); cb.Wait() }()
+	caught := false
+	var ha, hb int64
+	for i := 0; i < 500; i++ { // 25 s
+		ha, hb = height(a), height(b)
+		if hb >= lead+3 { // everything that existed when it started, and blocks decided since
+			_ = ha
+			caught = true
+			break
+		}
+		time.Sleep(50 * time.Millisecond)
+	}
+	// B keeps up for a while after switching to consensus
+	keeps := false
+	if caught { // (the validator decides alone and may be faster than its follower: progress is what is asked)
+		hb0 := hb
+		time.Sleep(2500 * time.Millisecond)
+		ha, hb = height(a), height(b)
+		keeps = hb >= hb0+2
+	}
+	ca.Process.Kill()
+	cb.Process.Kill()
+	ca.Wait()
+	cb.Wait()
+	inspect := func(dir string) nodeReport {
+		var rep nodeReport
+		out, _ := exec.Command(node, "-dir", dir, "-inspect").Output()
+		if err := json.Unmarshal(out, &rep); err != nil {
+			rep.Err = err.Error()
+		}
+		return rep
+	}
+	ra, rb := inspect(a), inspect(b)
+	same := rb.Err == "" && ra.Err == "" && rb.StoreHeight >= lead
+	detail := ""
+	for i, blk := range rb.Blocks {
+		if i >= len(ra.Blocks) || ra.Blocks[i].Hash != blk.Hash {
+			same = false
+			detail = fmt.Sprintf("block %d: synced node has %s", blk.Height, blk.Hash)
+			break
+		}
+	}
+	if same && rb.StateVals != ra.StateVals {
+		same, detail = false, fmt.Sprintf("validator set: synced node %s, validator %s", rb.StateVals, ra.StateVals)
+	}
+	if same && rb.StateHeight < int64(len(ra.Blocks)) && ra.Blocks[rb.StateHeight].AppHash != rb.StateApp {
+		same, detail = false, fmt.Sprintf("application hash after %d: synced node %s, the chain records %s", rb.StateHeight, rb.StateApp, ra.Blocks[rb.StateHeight].AppHash)
+	}
+	if same && fmt.Sprint(rb.Nonces) != fmt.Sprint(ra.Nonces) {
+		same, detail = false, fmt.Sprintf("account nonces: synced node %v, validator %v", rb.Nonces, ra.Nonces)
+	}
+	ans := fmt.Sprintf("caught=%s keeps=%s same=%s", vh.B01(caught), vh.B01(keeps), vh.B01(same))
+	r.Count("realsync-" + ans)
+	r.Distinct(fmt.Sprintf("realsync/%d", lead))
+	if !caught || !keeps || !same {
+		r.Fail(vh.Failure{Class: "real-node-does-not-catch-up-by-fast-sync", Detail: fmt.Sprintf("validator at height %d, syncing node at %d (started when the validator was at %d; store %d state %d app %d); %s %s", ha, hb, lead, rb.StoreHeight, rb.StateHeight, rb.AppHeight, detail, rb.Err),
+			Ops: []string{"realsync lead=" + fmt.Sprint(lead)}, Got: ans, Want: "caught=1 keeps=1 same=1"})
+	}
+	r.Op(fmt.Sprintf("realsync lead=%d | realsync", lead), ans)
 }
